@@ -162,6 +162,8 @@ C12_DeleteJustifiedStep(cfg, dels, pods, podsN, pass, nowN, everN, succN) ==
         \/ pass.j.del
         \/ DecidedTruth(cfg, podsN, everN, succN)
         \/ DecidedView(cfg, pass)
+\* a kill timestamp that had passed before the step is never changed or removed by it (admission keeps it immutable)
+C12_KillStickyStep(job, jobN, now) == (job.ex /\ jobN.ex /\ job.kill # 0 /\ job.kill <= now) => jobN.kill = job.kill
 C12_ForceGateStep(cfg, fdels, pods, pass, nowN) ==
     \A p \in Mine(pods) : p.name \in fdels =>
         /\ cfg.fd > 0 /\ ~cfg.forbid
